@@ -139,9 +139,10 @@ type FuncContract struct {
 	GhostParams []string
 	Only        []OnlyClause
 	Impl        *ImplClause
-	Thread      string   // "any": may run on a thread other than the frame loop's (lock discipline applies to every access)
-	PanicsIf    *Clause  // "panics if cond": an explicit panic is allowed exactly when cond holds (locals visible)
-	Callees     []string // whitelist of callee short names (empty = unrestricted)
+	ReadOnly    []OnlyClause // "readonly [tags] p": no store through parameter p (static)
+	Thread      string       // "any": may run on a thread other than the frame loop's (lock discipline applies to every access)
+	PanicsIf    *Clause      // "panics if cond": an explicit panic is allowed exactly when cond holds (locals visible)
+	Callees     []string     // whitelist of callee short names (empty = unrestricted)
 	CalleesTags []string
 	Mode        string // "" strict | "permissive" | "trusted"
 	Allocates   bool
@@ -615,7 +616,7 @@ func (ps *parser) parsePrimary() Expr {
 var declKeywords = map[string]bool{"ghost": true, "pure": true, "pred": true, "rec": true, "func": true, "axiom": true, "lemma": true,
 	"package": true, "import": true, "abstract": true, "iface": true, "functype": true, "fieldfunc": true, "guarded": true, "immutable": true}
 var clauseKeywords = map[string]bool{"requires": true, "ensures": true, "check": true, "modifies": true, "ghost_entry": true,
-	"ghost_exit": true, "loop": true, "call": true, "mode": true, "allocates": true, "tags": true, "ghostparams": true, "only": true, "callees": true, "implements": true, "panics": true, "thread": true}
+	"ghost_exit": true, "loop": true, "call": true, "mode": true, "allocates": true, "tags": true, "ghostparams": true, "only": true, "callees": true, "implements": true, "panics": true, "thread": true, "readonly": true}
 
 type rawLine struct {
 	text string
@@ -793,6 +794,13 @@ func parseClause(fc *FuncContract, w, rest string, en rawLine, path string) erro
 	case "tags":
 		tags, _ := parseTags("[" + rest + "]")
 		fc.Tags = append(fc.Tags, tags...)
+	case "readonly":
+		tags, body := parseTags(rest)
+		for _, p := range strings.Split(body, ",") {
+			if p = strings.TrimSpace(p); p != "" {
+				fc.ReadOnly = append(fc.ReadOnly, OnlyClause{Tags: tags, Local: p})
+			}
+		}
 	case "thread":
 		if strings.TrimSpace(rest) != "any" {
 			return fmt.Errorf("thread any")
